@@ -24,6 +24,7 @@ def gen_policy(rng, sim, maxdepth=2, p_star=0.08, p_bad=0.04):
         d, a = rng.choice(live); return d + '::' + a
     def gen(dep):
         r = rng.random()
+        if rng.random() < 0.04: return '*'          # the broadcast policy as an operand (neutral for &&, absorbing for ||)
         if dep <= 0 or r < 0.45: return atom()
         if r < 0.72: return gen(dep - 1) + ' && ' + gen(dep - 1)
         if r < 0.95: return gen(dep - 1) + ' || ' + gen(dep - 1)
@@ -33,7 +34,7 @@ def gen_policy(rng, sim, maxdepth=2, p_star=0.08, p_bad=0.04):
 
 
 DEFAULT_W = dict(add_dim=4, del_dim=2, add_attr=8, del_attr=5, rename=3, disable=4, upd=10, mpk=2, rekey=8, prune=4,
-                 keygen=10, refresh=10, encaps=12, recaps=3, decaps=15, rt=4, snap=1, restore=1, rfbad=2, ap=3)
+                 keygen=10, refresh=10, encaps=12, recaps=3, decaps=15, rt=4, snap=1, restore=1, rfbad=2, ap=3, hint=0)
 
 
 def gen_history(rng, w=None, nsteps=(8, 45), final_pairs=True, names_extra=('e', 'f'), multibyte=False, exotic=False):
@@ -90,6 +91,9 @@ def gen_history(rng, w=None, nsteps=(8, 45), final_pairs=True, names_extra=('e',
         elif op == 'decaps' and sim.nusk and sim.nenc: out.append(f'DE {rng.randrange(sim.nusk)} {rng.randrange(sim.nenc)}')
         elif op == 'ap': out.append(f'AP {x(gen_policy(rng, sim, 3, p_bad=0.1))}')
         elif op == 'rfbad' and sim.nusk: out.append(f"RFBAD {rng.randrange(sim.nusk)} {rng.choice('01')} {rng.choice('01234')}")
+        elif op == 'hint' and dims:
+            d = rng.choice(list(dims))
+            if dims[d]: out.append(f"HINT {x(d)} {x(rng.choice(dims[d]))} {rng.choice('001')}")
         elif op == 'snap': out.append('SNAP'); sim.nsnap = getattr(sim, 'nsnap', 0) + 1
         elif op == 'restore' and getattr(sim, 'nsnap', 0): out.append(f'REST {rng.randrange(sim.nsnap)}')
         elif op == 'rt':
